@@ -562,6 +562,45 @@ def r10_removal_is_exact(chk, prog, rule='R10'):
     chk.require(n >= 1, 'erase() calls in the remove functions of the log classes: %d' % n)
 
 
+def r11_log_name_lookup(chk, prog, rule='R11'):
+    """a log is addressed by its NAME: the lookups of Logging that take a name compare it with the stored names for
+    equality - a prefix or sub-string comparison makes 'trace' find 'trace-detail', so that the level pre-check (by
+    name) consults another log than the delivery"""
+    n = 0
+    for f in prog.functions:
+        if f.classq != 'celma::log::Logging' or f.body is None or not f.params or \
+                'basic_string' not in f.params[0]['t'] or f.short not in ('getLog', 'findLog', 'removeLog'):
+            continue
+        name = f.params[0]['name']
+        bodies = [f]
+        for x in f.walk():
+            if x.get('k') == 'LambdaExpr' and x.get('lambda'):
+                bodies += prog.by_key.get(x['lambda'], [])
+        exact, inexact, opaque = [], [], []
+        for g in bodies:
+            for c in g.calls():
+                nm = (c.get('callee') or '').split('::')[-1]
+                if not any(y.get('k') == 'DeclRefExpr' and y['ref'].get('name') == name for y in walk(c)):
+                    continue
+                if c.get('k') == 'CXXOperatorCallExpr' and c.get('op') in ('==', '!='):
+                    exact.append(c)
+                elif c.get('k') == 'CXXMemberCallExpr' and nm == 'compare':
+                    (exact if len([a for a in call_args(c) if not a.get('defarg')]) == 1 else inexact).append(c)
+                elif c.get('k') == 'CXXMemberCallExpr' and nm in ('find', 'rfind', 'starts_with', 'ends_with', 'substr'):
+                    inexact.append(c)
+        if any(x.get('k') == 'LambdaExpr' and not prog.by_key.get(x.get('lambda')) for x in f.walk()):
+            opaque.append('a generic lambda')
+        n += 1
+        if not exact and not inexact and opaque:
+            # the comparison sits in a construct whose body the extractor does not resolve (generic lambda): neither a
+            # pass nor a violation can be claimed
+            raise AnalysisBroken('%s(): the name is compared inside %s, whose body is not part of the extracted facts'
+                                 % (f.short, opaque[0]))
+        chk.check(bool(exact) and not inexact, rule, f.name, 'a log name is looked up by equality', f.loc(),
+                  'the name is compared with %s' % sorted({(c.get('callee') or '').split('::')[-1] for c in inexact}))
+    chk.require(n >= 1, 'name lookups of Logging: %d' % n)
+
+
 def run(chk):
     units = units_matching('library/log/') + [os.path.join(VERIF, 'drivers', 'log.cpp')]
     if chk.tier == 'thorough':
@@ -596,3 +635,5 @@ def run(chk):
     r9_precheck_entry(chk, prog)
     chk.rule('R10', 'removing a destination / log removes exactly the named one', 1)
     r10_removal_is_exact(chk, prog)
+    chk.rule('R11', 'logs are looked up by the exact name', 1)
+    r11_log_name_lookup(chk, prog)
